@@ -556,6 +556,29 @@ func genSingle(c *Case, r *simrt.Rand, cfg genCfg) {
 			c.Faults = append(c.Faults, Fault{At: r.Intn(70), Kind: pick(r, []string{"write-eio", "write-short", "sync-eio", "sync-eio"}), Count: pick(r, []int{1, 1, 2}), Frac: r.Intn(1000)})
 		}
 	}
+	if store && g.kids && g.merges && len(g.names) > 0 && r.Chance(0.25) {
+		// merges on a key of a nested child collection whose value so far is
+		// only in the store, arriving back to back (several segments of that
+		// child for one merger cycle, maybe while a round is in flight)
+		n1, n2 := g.names[0], g.names[len(g.names)-1]
+		k := g.pool[r.Intn(len(g.pool))]
+		nested := func(kv KV) *BatchSpec {
+			return &BatchSpec{Kids: map[string]*BatchSpec{n1: {Kids: map[string]*BatchSpec{n2: {Ops: []KV{kv}}}}}}
+		}
+		g.seq++
+		c.Prog = append(c.Prog, Op{Kind: "batch", B: nested(KV{Op: "set", K: k, V: []byte(fmt.Sprintf("%s.%s%d.0", n1, n2, g.seq))})}, Op{Kind: "drain"})
+		for i, nb := 0, 2+r.Intn(4); i < nb; i++ {
+			g.seq++
+			b := nested(KV{Op: "merge", K: k, V: []byte(fmt.Sprintf("n%d", g.seq))})
+			if r.Chance(0.5) {
+				b.Ops = g.ops("v", 2)
+			}
+			c.Prog = append(c.Prog, Op{Kind: "batch", B: b})
+			if r.Chance(0.25) {
+				c.Prog = append(c.Prog, Op{Kind: "notify", S: pick(r, []string{"", "mergeAll"})})
+			}
+		}
+	}
 	n := 4 + r.Intn(cfg.maxOps)
 	longHist := !partial && cfg.longHist > 0 && store && r.Chance(cfg.longHist)
 	if longHist {
